@@ -4,7 +4,7 @@
    A history is a list of calls (ProcessDescriptor / Close by pool index, Open); `run` yields one
    observation per call: closed ids, error, ids of Open() after the call; None = the call panicked. *)
 From Gots Require Import Base.Prelude Model.SegDesc Model.State
-  Proofs.SegProofs Proofs.StateBasics Proofs.StateRun Proofs.StateDup.
+  Proofs.SegProofs Proofs.StateBasics Proofs.StateRun Proofs.StateDup Proofs.StateInv.
 Import SegDesc State.
 Local Open Scope nat_scope.
 
@@ -63,7 +63,9 @@ Print Assumptions C10_close_sound.
 Theorem C10_process_shape : forall s d s' closed err, I1 s ->
   ProcessDescriptor s d = Ok (s', (closed, err)) ->
   (rejection err /\ closed = [] /\ open s' = open s /\ inBlackout s' = inBlackout s /\ blackoutIdx s' = blackoutIdx s /\
-   receivedHead s' = receivedHead s /\ (haspts d = false -> s' = s))
+   receivedHead s' = receivedHead s /\ (haspts d = false -> s' = s) /\
+   (haspts d = true -> exists ring1 added x, scan_ring d (ptsv d) (received s) false = (ring1, added, Some x) /\
+                                             received s' = ring1 /\ err = Some x))
   \/
   (~ rejection err /\ haspts d = true /\
    (exists ring1 added, scan_ring d (ptsv d) (received s) false = (ring1, added, None) /\
@@ -112,3 +114,90 @@ Print Assumptions C10_dup_twice_in_row_vss.
 Theorem C10_dup_twice_in_row_full_refuted : ~ C10_dup_twice_in_row_full.
 Proof. exact dup_full_refuted. Qed.
 Print Assumptions C10_dup_twice_in_row_full_refuted.
+
+(* ---- the full invariant with ghost sets ---- *)
+(* ghost g = (processed, gone, opened, writes): descriptors handed to ProcessDescriptor; descriptors
+   reported closed or discarded by a program resumption; descriptors in the order they entered the open
+   list; number of ring entries written.  gstep / gexec run the model and update the ghost sets; they
+   do not influence the run (C10_ghost_is_observer).
+   Inv (s, g) := I1 s /\ I2 s g,
+   I2 s g := open s is included in processed g /\ open s is a subsequence of opened g /\
+             (writes g <= 10 -> NoDup (opened g) /\ gone g included in opened g /\ nothing gone is open /\
+                                every descriptor ever opened is remembered by the ring and has a PTS /\
+                                the ring has the shape "writes g entries written, the rest nil").
+   The clauses about duplicates need `writes g <= 10`: the duplicate-detection ring keeps 10 signal
+   times, after that it forgets (known finding; C10_no_reopen_unconditional_refuted). *)
+
+Theorem C10_inv_step : forall pool sg c, Inv sg -> call_in_pool pool c ->
+  exists sg', gstep pool sg c = Ok sg' /\ Inv sg'.
+Proof. exact inv_step. Qed.
+Print Assumptions C10_inv_step.
+
+Theorem C10_inv_reachable : forall pool cs, Forall (call_in_pool pool) cs ->
+  exists sg', gexec pool (NewState, g0) cs = Ok sg' /\ Inv sg'.
+Proof. intros pool cs H. exact (inv_reachable pool cs _ Inv_new H). Qed.
+Print Assumptions C10_inv_reachable.
+
+Theorem C10_ghost_is_observer : forall pool cs s g s' g',
+  gexec pool (s, g) cs = Ok (s', g') -> exec pool s cs = Ok s'.
+Proof. exact gexec_exec. Qed.
+Print Assumptions C10_ghost_is_observer.
+
+(* the open list of every reachable state, in the words of the property *)
+Theorem C10_open_consistent : forall pool cs, Forall (call_in_pool pool) cs ->
+  exists s g, gexec pool (NewState, g0) cs = Ok (s, g) /\ exec pool NewState cs = Ok s /\
+    I1 s /\
+    incl (open s) (processed g) /\
+    subseq (open s) (opened g) /\
+    (writes g <= 10 ->
+       NoDup (opened g) /\ NoDup (open s) /\ (forall x, In x (open s) -> ~ In x (gone g))).
+Proof. exact open_consistent. Qed.
+Print Assumptions C10_open_consistent.
+
+(* with distinct ids in the pool, no id is open twice *)
+Theorem C10_open_ids_nodup : forall pool cs s g, NoDup (ids pool) ->
+  gexec pool (NewState, g0) cs = Ok (s, g) -> Forall (call_in_pool pool) cs -> writes g <= 10 ->
+  NoDup (ids (open s)).
+Proof. exact open_ids_nodup. Qed.
+Print Assumptions C10_open_ids_nodup.
+
+(* every descriptor returned as closed was open immediately before, is returned at most once (it was
+   not gone before and is not open afterwards, so by C10_open_consistent it never comes back while
+   writes <= 10), closed lists have no repetitions *)
+Theorem C10_closed_once_process : forall s g d s' closed err, Inv (s, g) -> writes g <= 10 ->
+  ProcessDescriptor s d = Ok (s', (closed, err)) ->
+  NoDup closed /\ forall x, In x closed -> In x (open s) /\ ~ In x (gone g) /\ ~ In x (open s').
+Proof. exact closed_once_process. Qed.
+Print Assumptions C10_closed_once_process.
+
+Theorem C10_closed_once_close : forall s g d s' closed err, Inv (s, g) -> writes g <= 10 ->
+  Close s d = (s', (closed, err)) ->
+  forall x, In x closed -> closed = [x] /\ In x (open s) /\ Equal d x = true /\ ~ In x (gone g) /\ ~ In x (open s').
+Proof. exact closed_once_close. Qed.
+Print Assumptions C10_closed_once_close.
+
+(* the unconditional form of the no-duplicate / not-reopened clause is FALSE of the model (and of the
+   code): 12 calls -- eleven descriptors of type 0x17 at eleven signal times, then the first again *)
+Definition C10_no_reopen_unconditional_full : Prop := no_reopen_full.
+
+Theorem C10_no_reopen_unconditional_refuted : ~ C10_no_reopen_unconditional_full.
+Proof. exact no_reopen_full_refuted. Qed.
+Print Assumptions C10_no_reopen_unconditional_refuted.
+
+(* non-vacuity: a history with a breakaway, a descriptor closing through it, a resumption, an explicit
+   close and a duplicate satisfies the hypotheses (indices in the pool, writes <= 10) and shows every
+   kind of observation *)
+Example C10_nonvacuous :
+  let pool := [ mk 0 0x10 1 true 100 0 0 false 0 0 None;      (* program start *)
+                mk 1 0x30 2 true 200 0 0 false 0 0 None;      (* provider ad start *)
+                mk 2 0x13 1 true 300 0 0 false 0 0 None;      (* program breakaway *)
+                mk 3 0x14 1 true 400 0 0 false 0 0 None;      (* program resumption *)
+                mk 4 0x31 2 true 500 0 0 false 0 0 None;      (* provider ad end *)
+                mk 5 0x30 9 false 0 0 0 false 0 0 None ] in   (* no PTS *)
+  let cs := [CProcess 0; CProcess 1; CProcess 2; CProcess 2; CProcess 3; CProcess 4; CClose 0; CProcess 5; COpen] in
+  Forall (call_in_pool pool) cs /\
+  map (fun o => match o with Some ob => (o_closed ob, o_err ob, o_open ob) | None => ([], 99%N, Panic) end)
+      (run pool NewState cs) =
+  [ ([], 0, Ok [0]); ([], 0, Ok [0; 1]); ([1], 0, Ok [0]); ([], 31, Ok [0]); ([], 0, Ok [0; 3]);
+    ([], 33, Ok [0; 3]); ([0], 0, Ok [3]); ([], 29, Ok [3]); ([], 0, Ok [3]) ]%N.
+Proof. split; [repeat constructor; simpl; lia|vm_compute; reflexivity]. Qed.
